@@ -28,6 +28,16 @@ CHECKS = {
         "well-formed source can have).",
         "DESIGN.md section 6, C03",
     ),
+    "C04": (
+        "property-based testing (Hypothesis): independent coordinate conversion oracle over provenance x access-order histories",
+        "Exploration: generated meshes (planted pole / antimeridian / prime-meridian nodes) under eight provenance combinations "
+        "(lon/lat only incl. 0..360, xyz only, both via MPAS-like sources with radius 1 or 6371229, centres supplied as "
+        "lon/lat, xyz, both or not at all) and a drawn permutation of first accesses of the 15 coordinate properties with "
+        "normalize_cartesian_coordinates() at a drawn point; every reported (lon, lat) is compared with (x, y, z)/|xyz|, with "
+        "the source positions, with the centroid / arc-midpoint definition, with the stated ranges and unit length.",
+        "Trusted: vlib/sphere.py conversions; position equality = 1e-7 rad or same 1e-8 pole cap; the MPAS-like writer.",
+        "DESIGN.md section 6, C04",
+    ),
     "C05": (
         "property-based testing (Hypothesis) with exact-formula and metamorphic oracles + exhaustive check of all quadrature tables",
         "Exploration plus an exhaustive finite part: all 15 quadrature tables are checked for moment exactness; generated strictly "
